@@ -612,6 +612,31 @@ def gen_feedback_gated(rng: random.Random) -> dict:
     return {"name": "g", "nodes": nodes, "bind": {}, "inputs": inputs, "selectors": ["x"], "deterministic": False, "feedback": kind, "table_len": tl}
 
 
+def mixed_open_gates(order: int = 0, lag: int = 2, kind: str = "route") -> dict:
+    """A target (`review`) shared by a default-OPEN gate that decides in the first step and a CLOSED-by-default gate
+    whose input arrives `lag` steps later.  Once the open gate has decided (selector s: 0 -> fast, 1 -> review) it no
+    longer allows an early start, and the closed gate never does: while the closed gate is undecided `review` starts
+    only if the open gate chose it; afterwards only if the closed gate (selector a: 0 -> review, 1 -> END) names it."""
+    chain = []
+    prev = "x"
+    for j in range(lag):
+        chain.append({"k": "fn", "name": f"stage{j}", "params": [{"n": prev}], "outs": [f"s{j}"]})
+        prev = f"s{j}"
+    if kind == "route":
+        triage = {"k": "route", "name": "triage", "params": [{"n": "s"}], "key": "s", "targets": ["fast", "review"], "table": ["fast", "review"], "open": True}
+    else:
+        triage = {"k": "ifelse", "name": "triage", "params": [{"n": "s"}], "key": "s", "t": "review", "f": "fast", "table": [False, True], "open": True}
+    audit = {"k": "route", "name": "audit", "params": [{"n": prev}, {"n": "a"}], "key": "a", "targets": ["review", "END"], "table": ["review", "END"], "open": False}
+    fast = {"k": "fn", "name": "fast", "params": [{"n": "x"}], "outs": ["fast_out"]}
+    review = {"k": "fn", "name": "review", "params": [{"n": "x"}], "outs": ["review_out"]}
+    nodes = chain + [triage, audit, fast, review]
+    if order == 1:
+        nodes = [review, fast, audit, triage] + chain
+    elif order == 2:
+        nodes = [audit, review] + chain + [fast, triage]
+    return {"name": "g", "nodes": nodes, "bind": {}, "inputs": ["s", "a", "x"], "selectors": ["s", "a"], "deterministic": True, "table_len": 2}
+
+
 def gen_late_closed_gate(rng: random.Random) -> dict:
     """A target shared by an entry router and a closed-by-default gate that cannot run before the target itself has
     produced its output (the gate reads it): when the router selects the target, the target runs - a closed gate
